@@ -177,7 +177,7 @@ verif_harness! {
     }
 }
 
-//@ harness name=aria_leaf_a_invol prop=C01 tier=quick bits=128 est=75 desc="L: the oracle's diffusion layer is an involution, A(A(x)) == x for all 2^128 x (cut lemma of the round-trip harnesses)"
+//@ harness name=aria_leaf_a_invol prop=C01 tier=quick bits=128 est=80 desc="L: the oracle's diffusion layer is an involution, A(A(x)) == x for all 2^128 x (cut lemma of the round-trip harnesses)"
 verif_harness! {
     name: aria_leaf_a_invol,
     bytes: 16,
@@ -188,7 +188,7 @@ verif_harness! {
     }
 }
 
-//@ harness name=aria_leaf_a_lin prop=C01 tier=quick bits=256 est=10 desc="L: the oracle's diffusion layer is GF(2)-linear, A(x ^ y) == A(x) ^ A(y) for all 2^256 (x, y) (cut lemma of the round-trip harnesses)"
+//@ harness name=aria_leaf_a_lin prop=C01 tier=quick bits=256 est=15 desc="L: the oracle's diffusion layer is GF(2)-linear, A(x ^ y) == A(x) ^ A(y) for all 2^256 (x, y) (cut lemma of the round-trip harnesses)"
 verif_harness! {
     name: aria_leaf_a_lin,
     bytes: 32,
@@ -284,12 +284,12 @@ macro_rules! aria_rt {
     };
 }
 
-//@ harness name=aria128_rt_ed prop=C01 tier=quick bits=256 stub=1 est=35 desc="W: Aria128::new(key): decrypt_block(encrypt_block(b)) == b for all 2^128 keys and all blocks; real key schedule (ek and dk) and round loops, SL1/SL2 an uninterpreted bijection pair, A in oracle form with consequences of aria_leaf_a_invol / aria_leaf_a_lin as cut assumptions"
+//@ harness name=aria128_rt_ed prop=C01 tier=quick bits=256 stub=1 est=50 desc="W: Aria128::new(key): decrypt_block(encrypt_block(b)) == b for all 2^128 keys and all blocks; real key schedule (ek and dk) and round loops, SL1/SL2 an uninterpreted bijection pair, A in oracle form with consequences of aria_leaf_a_invol / aria_leaf_a_lin as cut assumptions"
 //@ harness name=aria128_rt_de prop=C01 tier=quick bits=256 stub=1 est=60 desc="W: Aria128::new(key): encrypt_block(decrypt_block(b)) == b for all keys and blocks; SL1/SL2 an uninterpreted bijection pair, A in oracle form with consequences of aria_leaf_a_invol / aria_leaf_a_lin as cut assumptions"
 aria_rt!(aria128_rt_ed, aria128_rt_de, Aria128, 16);
-//@ harness name=aria192_rt_ed prop=C01 tier=quick bits=320 stub=1 est=65 desc="W: Aria192::new(key): decrypt_block(encrypt_block(b)) == b for all 2^192 keys and all blocks; SL1/SL2 an uninterpreted bijection pair, A in oracle form with consequences of aria_leaf_a_invol / aria_leaf_a_lin as cut assumptions"
-//@ harness name=aria192_rt_de prop=C01 tier=quick bits=320 stub=1 est=60 desc="W: Aria192::new(key): encrypt_block(decrypt_block(b)) == b for all keys and blocks; SL1/SL2 an uninterpreted bijection pair, A in oracle form with consequences of aria_leaf_a_invol / aria_leaf_a_lin as cut assumptions"
+//@ harness name=aria192_rt_ed prop=C01 tier=quick bits=320 stub=1 est=60 desc="W: Aria192::new(key): decrypt_block(encrypt_block(b)) == b for all 2^192 keys and all blocks; SL1/SL2 an uninterpreted bijection pair, A in oracle form with consequences of aria_leaf_a_invol / aria_leaf_a_lin as cut assumptions"
+//@ harness name=aria192_rt_de prop=C01 tier=quick bits=320 stub=1 est=70 desc="W: Aria192::new(key): encrypt_block(decrypt_block(b)) == b for all keys and blocks; SL1/SL2 an uninterpreted bijection pair, A in oracle form with consequences of aria_leaf_a_invol / aria_leaf_a_lin as cut assumptions"
 aria_rt!(aria192_rt_ed, aria192_rt_de, Aria192, 24);
-//@ harness name=aria256_rt_ed prop=C01 tier=quick bits=384 stub=1 est=45 desc="W: Aria256::new(key): decrypt_block(encrypt_block(b)) == b for all 2^256 keys and all blocks; SL1/SL2 an uninterpreted bijection pair, A in oracle form with consequences of aria_leaf_a_invol / aria_leaf_a_lin as cut assumptions"
-//@ harness name=aria256_rt_de prop=C01 tier=quick bits=384 stub=1 est=65 desc="W: Aria256::new(key): encrypt_block(decrypt_block(b)) == b for all keys and blocks; SL1/SL2 an uninterpreted bijection pair, A in oracle form with consequences of aria_leaf_a_invol / aria_leaf_a_lin as cut assumptions"
+//@ harness name=aria256_rt_ed prop=C01 tier=quick bits=384 stub=1 est=65 desc="W: Aria256::new(key): decrypt_block(encrypt_block(b)) == b for all 2^256 keys and all blocks; SL1/SL2 an uninterpreted bijection pair, A in oracle form with consequences of aria_leaf_a_invol / aria_leaf_a_lin as cut assumptions"
+//@ harness name=aria256_rt_de prop=C01 tier=quick bits=384 stub=1 est=70 desc="W: Aria256::new(key): encrypt_block(decrypt_block(b)) == b for all keys and blocks; SL1/SL2 an uninterpreted bijection pair, A in oracle form with consequences of aria_leaf_a_invol / aria_leaf_a_lin as cut assumptions"
 aria_rt!(aria256_rt_ed, aria256_rt_de, Aria256, 32);
